@@ -74,6 +74,10 @@ static void collect(CaseObs& o) {
   o.tryWaitFalse = g.tryWaitFalse.load();
 }
 
+void collectCounts(CaseObs& o) {
+  collect(o);
+}
+
 // C08: with every submitted task finished, nobody submitting and every worker observed inside a futex
 // wait at one instant (a worker flushes its batched decrements before it can wait), the pending-work
 // counter must be zero.
